@@ -153,10 +153,9 @@ theorem rxReset_reach (r : Recver) (v : Nat) : r.st.reach (r.rxReset v).1.st = t
   unfold Recver.rxReset
   split
   · exact RSt.reach_refl _
-  simp only
   split
   · exact RSt.reach_refl _
-  cases hst : r.st <;> simp only [] <;> repeat' split
+  cases hst : r.st <;> (try simp only []) <;> repeat' split
   all_goals simp [RSt.reach, hst]
 
 theorem rconnError_reach (r : Recver) : r.st.reach r.connError.st = true := by
